@@ -78,8 +78,23 @@ def sap_line(axis, maxpair, cols):
 
 
 def gen_sap_case(rng, thorough):
-    style = rng.choice(("rand", "rand", "grid", "grid", "touch", "f32", "f32", "dense", "runs", "weird", "line"))
-    if style == "runs":
+    style = rng.choice(("rand", "rand", "grid", "grid", "touch", "f32", "f32", "dense", "runs", "weird", "line", "blocks"))
+    blk = None
+    if style == "blocks":
+        # block-structured input for the tiled merge sort behind mj_SAP: consecutive boxes come in blocks (a block of 16 boxes is one
+        # 32-endpoint insertion-sort run, 32 / 64 boxes are the 64 / 128 merge blocks, 8 boxes half a run), every block sits in one
+        # of a few clusters along the sweep axis, so whole runs are ordered / reversed / interleaved relative to each other
+        bsz = rng.choice((8, 16, 16, 16, 32, 64 if thorough else 32))
+        off = rng.choice((0, 0, 0, rng.randrange(bsz)))
+        ncl = rng.choice((2, 3, 3, 4))
+        sep = rng.choice((0.5, 2.0, 2.0, 3.0))       # cluster spacing (boxes of one cluster span < 2.0): overlapping or disjoint clusters
+        nblk = rng.randint(3, 8)
+        while off + nblk * bsz > (400 if thorough else 200) and nblk > 3:
+            nblk -= 1
+        n = off + nblk * bsz
+        cl = [rng.randrange(ncl) for _ in range(nblk + 1)]
+        blk = [sep * cl[0 if i < off else 1 + (i - off) // bsz] for i in range(n)]
+    elif style == "runs":
         n = rng.choice((15, 16, 17, 31, 32, 33, 63, 64, 65, 127, 128, 129)) + rng.choice((-1, 0, 0, 1))
     elif style == "dense":
         n = rng.randint(20, 400 if thorough else 160)
@@ -97,6 +112,11 @@ def gen_sap_case(rng, thorough):
             elif style == "dense":
                 c = rng.uniform(-1, 1); h = rng.uniform(0.1, 1.5)
                 l, u = c - h, c + h
+            elif style == "blocks":
+                if a == 0:
+                    l = blk[i] + rng.uniform(0.0, 1.5); u = l + rng.uniform(0.02, 0.45)
+                else:
+                    l = rng.uniform(0.0, 1.0); u = l + rng.uniform(0.3, 1.0)
             elif style == "grid":
                 l = float(rng.randint(0, 3)); u = l + float(rng.randint(0, 2))
             elif style == "touch":
@@ -124,7 +144,46 @@ def gen_sap_case(rng, thorough):
     else:
         maxpair = rng.choice((0, -1, 1))
     axis = rng.choice((0, 0, 0, 1, 2)) if rng.random() < 0.97 else rng.choice((3, -1, 7))
+    if style == "blocks":
+        axis = rng.choice((0, 1, 2))
+        if axis:    # the clustered coordinate is the sweep axis
+            lo[0], lo[axis] = lo[axis], lo[0]
+            hi[0], hi[axis] = hi[axis], hi[0]
     return style, sap_line(axis, maxpair, lo + hi)
+
+
+def gen_bfsort_line(rng):
+    """Signature lists for the static bfsort: random, or block-structured (whole 32-element runs / 64-element merge blocks with
+    keys from one of a few ranges, so runs are ordered / reversed / interleaved relative to each other)."""
+    if rng.random() < 0.7:
+        n = rng.choice((0, 1, 2, 5, 31, 32, 33, 64, 65, 200))
+        kd = rng.choice((2, 5, 1 << 20, (1 << 32) - 1))
+        return ("bfsort " + " ".join(str(rng.randint(0, kd)) for _ in range(n))).strip()
+    bsz = rng.choice((16, 32, 32, 32, 64, 128))
+    off = rng.choice((0, 0, rng.randrange(bsz)))
+    nblk = rng.randint(3, 9 if bsz <= 64 else 5)
+    ncl = rng.choice((2, 3, 4))
+    hi = rng.choice((0, 1, 1 << 15))      # keys with the top bit set: compared as unsigned
+    cl = [rng.randrange(ncl) for _ in range(nblk + 1)]
+    ks = []
+    for i in range(off + nblk * bsz):
+        c = cl[0 if i < off else 1 + (i - off) // bsz]
+        ks.append(((c * 1000 + rng.randint(0, 1500)) + (hi << 16)) & 0xFFFFFFFF)
+    return "bfsort " + " ".join(map(str, ks))
+
+
+def bfsort_oracle(line, out):
+    """bfsort must return its input ordered as unsigned ints (mj_collision merges and de-duplicates body pairs by a linear scan of
+    the sorted signature list)."""
+    try:
+        want = sorted(int(x) for x in line.split()[1:])
+        got = [int(x) for x in out.split()]
+    except ValueError:
+        return None
+    if got != want:
+        k = next((i for i in range(min(len(got), len(want))) if got[i] != want[i]), min(len(got), len(want)))
+        return ("c14:bfsort-unsorted", "bfsort of %d signatures is not the sorted input (first difference at index %d)" % (len(want), k))
+    return None
 
 
 def sap_exhaustive(vals, n):
@@ -432,6 +491,75 @@ def directed_scenes():
         out.append(("buffer", "%s%d mocap plane bod%s at the origin + %d free spheres resting on them"
                     % ("world plane + " if wp else "", k, "y" if k == 1 else "ies", m), planes(k, m, wp)))
     return out
+
+
+def gen_cluster_scene(rng, maxbodies=140):
+    """Many-body scene for the sorts behind the broad phase (SAPsort has 2 endpoints per collidable body, bfsort one key per body
+    pair): consecutive bodies come in blocks of 8 / 16 / 32 / 64 free bodies, every block sits in one of a few clusters along a
+    random direction (the principal axis mj_broadphase sweeps along), inside a cluster neighbouring spheres overlap.  Returns
+    (what, lines)."""
+    # block size vs the sort: 16 bodies = 32 endpoints = one insertion-sort run of SAPsort, 32 / 64 bodies = the blocks produced by
+    # its first / second merge pass; at least one merge pass must see three or more blocks, else the blocks are too few to interact
+    bsz = rng.choice((8, 16, 16, 16, 16, 32, 64))
+    nblk = {8: rng.randint(5, 9), 16: rng.randint(3, 7), 32: rng.randint(5, 7), 64: rng.randint(3, 4)}[bsz]
+    if nblk * bsz > maxbodies:
+        bsz, nblk = 16, rng.randint(3, max(3, min(7, maxbodies // 16)))
+    ncl = rng.choice((2, 3, 3, 4))
+    off = rng.choice((0, 0, 0, rng.randrange(bsz)))     # bodies before the first full block (misaligns blocks and sort runs)
+    cl = [rng.randrange(ncl) for _ in range(nblk + 1)]
+    if len(set(cl[1:])) == 1:
+        cl[rng.randrange(1, nblk + 1)] = (cl[1] + 1) % ncl
+    d = [rng.gauss(0, 1) for _ in range(3)]
+    dn = math.sqrt(sum(x * x for x in d)) or 1.0
+    d = [x / dn for x in d] if rng.random() < 0.6 else [1.0, 0.0, 0.0]
+    rad = rng.choice((0.03, 0.05))
+    length = max(1.0, bsz / 16.0)                         # extent of one cluster along d (about 16 spheres per unit length)
+    sep = length * rng.choice((1.5, 1.5, 3.0, 0.6))       # cluster spacing: disjoint (mostly) or overlapping clusters
+    L = ["option disableflags 0", "option enableflags 0", "spec memory 200000000"]
+    h = 0
+    if rng.random() < 0.3:
+        h += 1
+        L += ["geom %d 0" % h, "set %d type %d" % (h, PLANE), "set %d size 5 5 0.1" % h, "set %d pos 0 0 -50" % h]
+    nb = off + nblk * bsz
+    for i in range(nb):
+        c = cl[0 if i < off else 1 + (i - off) // bsz]
+        t = sep * c + rng.uniform(0.0, length)
+        o = [rng.uniform(-0.02, 0.02) for _ in range(3)]
+        pos = [t * d[k] + o[k] for k in range(3)]
+        b = h + 1
+        L += ["body %d 0" % b, "name %d b%d" % (b, i + 1), "set %d pos %s" % (b, fmt(pos)), "freejoint %d %d" % (b + 1, b),
+              "geom %d %d" % (b + 2, b), "set %d type %d" % (b + 2, SPHERE), "set %d size %r" % (b + 2, rad)]
+        h += 3
+    what = ("%d free spheres r=%g in %d blocks of %d consecutive bodies (+%d leading), block clusters %s spaced %g along %s"
+            % (nb, rad, nblk, bsz, off, cl, sep, [round(x, 3) for x in d]))
+    return what, L
+
+
+def cluster_blocks(rng, nscene, maxbodies=140):
+    blocks, meta = [], []
+    for _ in range(nscene):
+        what, L = gen_cluster_scene(rng, maxbodies)
+        blocks.append(["model"] + L + ["end", "flags 0 0", "run"])
+        meta.append({"kind": "cluster", "what": what, "lines": L})
+    return blocks, meta
+
+
+def new_stats():
+    return {"models": 0, "compile_rejected": 0, "runs": 0, "narrowphase_calls": 0, "contacts": 0, "midphase_groups": 0,
+            "runs_with_explicit_pairs": 0, "runs_with_excludes": 0, "engine_errors": 0, "bodies_hist": {}, "geoms_hist": {}}
+
+
+def search_cluster_scenes(c, impl, r2, skip_keys, batches=6, per_batch=20, maxbodies=260):
+    """Engine-level search on many-body cluster scenes: the first brute-force oracle failure of mj_collision whose key is not in
+    skip_keys, as (key, what, replay), or None."""
+    for _ in range(batches):
+        found2 = []
+        b2, m2 = cluster_blocks(r2, per_batch, maxbodies)
+        judge_scenes(c, run_harness_scenes(c, impl, b2), m2, lambda k, w, rp: found2.append((k, w, rp)), new_stats())
+        for f in found2:
+            if f[0] not in skip_keys:
+                return f
+    return None
 
 
 # ------------------------------------------------------------------------------------------- model-side line
@@ -858,10 +986,12 @@ def run(ctx):
     ctx.rule = ("(1) kernel cases: bit patterns per generated filter kernel (random masks / small body ids hitting every equality / "
                 "touching boxes), distinct by full line; (2) mj_SAP op lines: box sets in named styles (random, small integer grid with "
                 "ties, chains of touching intervals, doubles that collide after the float cast, dense, sizes at the 32/64/128 run "
-                "boundaries of the sort, NaN/inf/inverted boxes for the tie only) + an exhaustive small scope; bfsort / contactSort / "
+                "boundaries of the sort, block-structured sets whose runs / merge blocks are ordered, reversed or interleaved, "
+                "NaN/inf/inverted boxes for the tie only) + an exhaustive small scope; bfsort / contactSort / "
                 "contactcompare lines; (3) scenes: generated models (2..28 bodies, 0..4 geoms each, planes on world/static/mocap "
                 "bodies, contype/conaffinity sets incl. 0, margins, gaps, explicit pairs incl. same-body and overriding ones, "
-                "excludes, flags) x sampled states x {mid-phase on, off}; a scene case is distinct by its full JSON; non-trivial = "
+                "excludes, flags) x sampled states x {mid-phase on, off}, plus many-body cluster scenes (40..260 free spheres in "
+                "blocks of consecutive bodies placed in a few clusters along one direction); a scene case is distinct by its full JSON; non-trivial = "
                 "at least one narrow-phase call")
     ctx.lean_props(THEOREMS)
     manifest = kernelval.regen(ctx)
@@ -895,9 +1025,7 @@ def run(ctx):
         lines.append(l)
         hist[st] = hist.get(st, 0) + 1
     for _ in range(3000 if thorough else 400):
-        n = rng.choice((0, 1, 2, 5, 31, 32, 33, 64, 65, 200))
-        kd = rng.choice((2, 5, 1 << 20, (1 << 32) - 1))
-        lines.append(("bfsort " + " ".join(str(rng.randint(0, kd)) for _ in range(n))).strip())
+        lines.append(gen_bfsort_line(rng))
         ng = rng.randint(1, 12)
         types = [rng.randint(0, NT - 1) for _ in range(ng)]
         k = rng.choice((0, 1, 2, 3, 10, 33, 70))
@@ -916,7 +1044,11 @@ def run(ctx):
                 nsap += 1
                 r = sap_oracle(l, o)
                 if r:
-                    fail(r[0], r[1], {"op": l[:3000], "mj_SAP_output": o[:500], "replay": "echo '<op>' | c14_pairs"})
+                    fail(r[0], r[1], {"op": l[:50000], "mj_SAP_output": o[:500], "replay": "echo '<op>' | c14_pairs"})
+            elif l.startswith("bfsort ") and o != "bad-op":
+                r = bfsort_oracle(l, o)
+                if r:
+                    fail(r[0], r[1], {"op": l[:6000], "bfsort_output": o[:6000], "replay": "echo '<op>' | c14_pairs"})
         ctx.extra["sap_oracle_checked"] = nsap
         ctx.sample({"op": lines[len(lines) // 3][:200], "model_and_impl_output": outs[len(lines) // 3][:200]})
     else:
@@ -924,9 +1056,12 @@ def run(ctx):
 
     # ---------------------------------------------------------------- (3) scenes
     nscene = 600 if thorough else 70
-    stats = {"models": 0, "compile_rejected": 0, "runs": 0, "narrowphase_calls": 0, "contacts": 0, "midphase_groups": 0,
-             "runs_with_explicit_pairs": 0, "runs_with_excludes": 0, "engine_errors": 0, "bodies_hist": {}, "geoms_hist": {}}
+    stats = new_stats()
     blocks, meta = gen_blocks(rng, nscene, 3 if thorough else 2, True)
+    # many-body cluster scenes: > 32 collidable bodies / > 64 body pairs, the sizes at which SAPsort / bfsort run several merge passes
+    cb, cm = cluster_blocks(rng, 80 if thorough else 12, 260 if thorough else 140)
+    blocks += cb
+    meta += cm
     results = run_harness_scenes(ctx, impl, blocks)
     mlines, mref = judge_scenes(ctx, results, meta, fail, stats)
     # tie: model vs engine, scene by scene
@@ -961,30 +1096,70 @@ def run(ctx):
     if mlines:
         ctx.sample({"scene_op": mlines[len(mlines) // 2][:300] + " ...", "model_output": mouts[len(mlines) // 2][:200]})
     ctx.extra["scene_stats"] = stats
+    # a sort-level failure of the static mj_SAP / bfsort ops: look for an engine-level witness (mj_collision drops / invents a
+    # pair on a many-body scene) so that the replay also shows the property itself failing
+    sort_keys = ("c14:sap-incomplete", "c14:sap-unsound", "c14:sap-duplicate", "c14:sap-bad-pair", "c14:sap-count", "c14:bfsort-unsorted")
+    if any(f[0] in sort_keys for f in found) and not any(f[0].startswith(("c14:missing-pair", "c14:extra-pair")) for f in found):
+        import random
+        try:
+            f = search_cluster_scenes(ctx, impl, random.Random(ctx.seed * 7919 + 15), {k["key"] for k in ctx.known()})
+        except common.Infra:
+            f = None
+        if f:
+            found.append(f)
     for key, what, rp in found:
         ctx.oracle_failure(key, what, rp)
     ctx.extra["oracle_failures"] = len(found)
 
     def directed(c):
-        """A proof / tie obligation broke but the oracle was silent: search harder (more and larger scenes, fresh randomness)."""
+        """A proof / tie obligation broke but the oracle was silent: search harder (more and larger scenes, fresh randomness).
+        Stages: (A) many-body cluster scenes (the only inputs on which the sorts behind the broad phase run more than one merge
+        pass: > 32 collidable bodies / > 64 body pairs) judged by the brute-force contact oracle; (B) block-structured mj_SAP /
+        bfsort ops judged by their oracles; (C) more of the ordinary generated scenes.  When the broken obligation is the tie of
+        the static mj_SAP / bfsort / contactSort ops, the size-dependent stages A and B run first."""
         import random
         r2 = random.Random(ctx.seed * 7919 + 14)
-        found2 = []
-        st2 = {"models": 0, "compile_rejected": 0, "runs": 0, "narrowphase_calls": 0, "contacts": 0, "midphase_groups": 0,
-               "runs_with_explicit_pairs": 0, "runs_with_excludes": 0, "engine_errors": 0, "bodies_hist": {}, "geoms_hist": {}}
-        b2, m2 = gen_blocks(r2, 500, 3, False)
-        judge_scenes(c, run_harness_scenes(c, impl, b2), m2, lambda k, w, rp: found2.append((k, w, rp)), st2)
-        lines2 = [gen_sap_case(r2, True)[1] for _ in range(8000)]
-        rc2, outs2, _ = c.run_lines([impl], lines2)
-        if rc2 == 0 and len(outs2) == len(lines2):
-            for l, o in zip(lines2, outs2):
-                r = sap_oracle(l, o) if o != "bad-op" else None
-                if r:
-                    found2.append((r[0], r[1], {"op": l[:3000], "mj_SAP_output": o[:500]}))
         kn = {k["key"] for k in c.known()}
-        for k, w, rp in found2:
-            if k not in kn:
-                return {"key": k, "what": w, "replay": rp}
+
+        def first_new(found2):
+            for k, w, rp in found2:
+                if k not in kn:
+                    return {"key": k, "what": w, "replay": rp}
+            return None
+
+        def stage_cluster():
+            f = search_cluster_scenes(c, impl, r2, kn)
+            return {"key": f[0], "what": f[1], "replay": f[2]} if f else None
+
+        def stage_ops():
+            found2 = []
+            lines2 = [gen_sap_case(r2, True)[1] for _ in range(8000)] + [gen_bfsort_line(r2) for _ in range(2000)]
+            rc2, outs2, _ = c.run_lines([impl], lines2)
+            if rc2 == 0 and len(outs2) == len(lines2):
+                for l, o in zip(lines2, outs2):
+                    r = None
+                    if o != "bad-op":
+                        r = sap_oracle(l, o) if l.startswith("sap ") else bfsort_oracle(l, o)
+                    if r:
+                        found2.append((r[0], r[1], {"op": l[:50000], "output": o[:2000], "replay": "echo '<op>' | c14_pairs"}))
+            return first_new(found2)
+
+        def stage_scenes():
+            found2 = []
+            b2, m2 = gen_blocks(r2, 500, 3, False)
+            judge_scenes(c, run_harness_scenes(c, impl, b2), m2, lambda k, w, rp: found2.append((k, w, rp)), new_stats())
+            return first_new(found2)
+
+        sort_tie = any(str(dg.get("stream", "")).startswith("static mj_SAP") for dg in c.disagreements) or any(
+            (not o["ok"]) and "static mj_SAP" in o["name"] for o in c.obligations)
+        stages = (stage_cluster, stage_ops, stage_scenes) if sort_tie else (stage_scenes, stage_cluster, stage_ops)
+        for st in stages:
+            try:
+                r = st()
+            except common.Infra:
+                r = None
+            if r:
+                return r
         return None
     ctx.directed_search = directed
     if thorough:
